@@ -8,9 +8,9 @@ import time
 
 import vcore as V
 
-SCHED_CFGS = {"quick": ["MC_C02_cold.cfg", "MC_C02_dirs.cfg", "MC_C02_regrender.cfg"],
-              "thorough": ["MC_C02_cold.cfg", "MC_C02_dirs.cfg", "MC_C02_regrender.cfg"]}
-INV_CFGS = {"quick": ["MC_C02_regrender3.cfg"], "thorough": ["MC_C02_cold3.cfg", "MC_C02_dirs3.cfg", "MC_C02_regrender3.cfg"]}
+SCHED_CFGS = {"quick": ["MC_C02_cold.cfg", "MC_C02_dirs.cfg", "MC_C02_regrender.cfg", "MC_C02_reload.cfg"],
+              "thorough": ["MC_C02_cold.cfg", "MC_C02_dirs.cfg", "MC_C02_regrender.cfg", "MC_C02_reload.cfg"]}
+INV_CFGS = {"quick": ["MC_C02_regrender3.cfg"], "thorough": ["MC_C02_cold3.cfg", "MC_C02_dirs3.cfg", "MC_C02_regrender3.cfg", "MC_C02_reload3.cfg"]}
 DEVIATIONS = ["MC_C02_dev_early.cfg", "MC_C02_dev_paths.cfg", "MC_C02_dev_cur.cfg"]
 
 
